@@ -7,6 +7,7 @@ import (
 	"time"
 
 	"github.com/celestiaorg/go-header"
+	"github.com/celestiaorg/go-header/verifhook"
 )
 
 // NetworkHeadRequestTimeout is the amount of time the syncer is willing to wait for
@@ -213,6 +214,7 @@ func (s *Syncer[H]) setLocalHead(ctx context.Context, netHead H) {
 		return
 	}
 	// and if valid, set it as new subjective head
+	verifhook.At("sync.setLocalHead.beforePendingAdd")
 	s.pending.Add(netHead)
 	s.wantSync()
 	log.Infow("new network head", "height", netHead.Height(), "hash", netHead.Hash())
